@@ -126,6 +126,9 @@ func ParseLog(r io.Reader) ([]Event, error) {
 			}
 			continue
 		}
+		if strings.HasPrefix(rest, "<... ???") {
+			continue // the end of a call strace never saw the beginning of
+		}
 		if strings.HasPrefix(rest, "<... ") {
 			i := strings.Index(rest, " resumed>")
 			if i < 0 {
